@@ -93,8 +93,17 @@ Fixpoint zip_times (arr dep cb cu : list Z) : list stoptime :=
   | _, _, _, _ => []
   end.
 
-(* one trip (trips_and_connections_cache_fetcher.cpp, after the D5 repair): unknown path or a stop-time
-   count that does not fit the path or the other arrays -> the trip is skipped *)
+(* the stop-time check of the D13 repair (trips_and_connections_cache_fetcher.cpp:105-127): with n stop times, for
+   every i with i + 1 < n (the loop `for (i = 0; i + 1 < n; i++)`, left at the first failure), the trip is refused when
+   dep[i] < 0, or arr[i+1] < dep[i], or (i > 0 and dep[i] < arr[i]).  arr[0] and dep[n-1] are not looked at.
+   The indices are in range when the count check has passed (nth's default is never read then). *)
+Definition time_step_bad (arr dep : list Z) (i : nat) : bool :=
+  (nth i dep 0 <? 0) || (nth (S i) arr 0 <? nth i dep 0) || (negb (Nat.eqb i 0) && (nth i dep 0 <? nth i arr 0)).
+Definition trip_times_in_order (arr dep : list Z) (n : nat) : bool :=
+  forallb (fun i => negb (time_step_bad arr dep i)) (seq 0 (n - 1)).
+
+(* one trip (trips_and_connections_cache_fetcher.cpp, after the D5 and D13 repairs): unknown path, a stop-time
+   count that does not fit the path or the other arrays, or stop times that go backwards -> the trip is skipped *)
 Definition load_trip (paths : list path) (service : nat) (m : trip_msg) : option (option trip) :=
   match tm_id m, tm_path m with
   | Some tid, Some pid =>
@@ -104,6 +113,8 @@ Definition load_trip (paths : list path) (service : nat) (m : trip_msg) : option
           let n := length (tm_arr m) in
           if Nat.ltb n 2 || Nat.ltb (length (p_nodes p)) n || Nat.ltb (length (tm_dep m)) n
              || Nat.ltb (length (tm_cb m)) n || Nat.ltb (length (tm_cu m)) n
+          then Some None
+          else if negb (trip_times_in_order (tm_arr m) (tm_dep m) n)
           then Some None
           else Some (Some {| t_id := tid; t_path := pid; t_service := service;
                              t_times := zip_times (tm_arr m) (firstn n (tm_dep m)) (firstn n (tm_cb m)) (firstn n (tm_cu m)) |})
